@@ -467,6 +467,11 @@ def _cmp_vals(x, y, m=None):
         if isinstance(x, PyVec) and len(xs) != len(ys):
             return Adt(ORDERING, "Less" if len(xs) < len(ys) else "Greater")
         return Adt(ORDERING, "Equal")
+    if isinstance(x, Adt) and x.path.endswith("cmp::Reverse") and isinstance(y, Adt):
+        r = _cmp_vals(x.fields["0"], y.fields["0"], m)
+        if isinstance(r, Term):
+            return r
+        return Adt(ORDERING, {"Less": "Greater", "Greater": "Less", "Equal": "Equal"}[r.variant])
     if isinstance(x, Adt) and x.path == OPTION:
         kx = 0 if x.variant == "None" else 1
         ky = 0 if y.variant == "None" else 1
@@ -743,6 +748,43 @@ def _vec_push(m, a, c):
         raise Unsupported("push on %r" % (v,))
     v.items.append(a[1])
     return ()
+
+
+@reg("std::collections::BinaryHeap::<T>::new", "std::collections::BinaryHeap::<T, A>::new")
+def _heap_new(m, a, c):
+    return PyVec([])
+
+
+@reg("std::collections::BinaryHeap::<T, A>::push", "std::collections::BinaryHeap::<T>::push")
+def _heap_push(m, a, c):
+    deref(a[0]).items.append(a[1])
+    return ()
+
+
+@reg("std::collections::BinaryHeap::<T, A>::pop", "std::collections::BinaryHeap::<T>::pop")
+def _heap_pop(m, a, c):
+    """the greatest element by the element type's own Ord (which of several equal ones is unspecified: the first)"""
+    v = deref(a[0])
+    if not v.items:
+        return NONE
+    best = 0
+    for i in range(1, len(v.items)):
+        o = _cmp_vals(v.items[i], v.items[best], m)
+        if isinstance(o, Term):
+            raise Unsupported("heap of symbolic values")
+        if o.variant == "Greater":
+            best = i
+    return some(v.items.pop(best))
+
+
+@reg("std::collections::BinaryHeap::<T, A>::len", "std::collections::BinaryHeap::<T>::len")
+def _heap_len(m, a, c):
+    return len(deref(a[0]).items)
+
+
+@reg("std::collections::BinaryHeap::<T, A>::is_empty", "std::collections::BinaryHeap::<T>::is_empty")
+def _heap_is_empty(m, a, c):
+    return not deref(a[0]).items
 
 
 @reg("std::collections::VecDeque::<T, A>::pop_front")
@@ -2226,10 +2268,47 @@ def _set_insert(m, a, c):
     return True
 
 
+def _set_find(m, s_, x):
+    x = deref(x)
+    if isinstance(x, (Adt, tuple)) and not is_sym(x) and _user_ordered(m, x):
+        for i, y in enumerate(s_.items):
+            o = _cmp_vals(y, x, m)
+            if isinstance(o, Term):
+                raise Unsupported("symbolic element order")
+            if o.variant == "Equal":
+                return i
+        return -1
+    for i, y in enumerate(s_.items):
+        if y == x:
+            return i
+    return -1
+
+
 @reg("std::collections::BTreeSet::<T, A>::contains", "std::collections::HashSet::<T, S, A>::contains",
      "std::collections::HashSet::<T, S>::contains")
 def _set_contains(m, a, c):
-    return deref(a[1]) in deref(a[0]).items
+    return _set_find(m, deref(a[0]), a[1]) >= 0
+
+
+@reg("std::collections::BTreeSet::<T, A>::remove", "std::collections::HashSet::<T, S, A>::remove",
+     "std::collections::HashSet::<T, S>::remove")
+def _set_remove(m, a, c):
+    s_ = deref(a[0])
+    i = _set_find(m, s_, a[1])
+    if i < 0:
+        return False
+    s_.items.pop(i)
+    return True
+
+
+@reg("std::collections::BTreeSet::<T, A>::is_empty", "std::collections::HashSet::<T, S, A>::is_empty")
+def _set_is_empty(m, a, c):
+    return not deref(a[0]).items
+
+
+@reg("std::collections::BTreeSet::<T, A>::into_iter", "std::collections::HashSet::<T, S, A>::into_iter")
+def _set_into_iter(m, a, c):
+    return PyIter(list(deref(a[0]).items))
 
 
 @reg("std::collections::BTreeSet::<T, A>::iter", "std::collections::HashSet::<T, S, A>::iter",
